@@ -19,7 +19,37 @@ def _enum(v: Any) -> Any:
     return v
 
 
+class _JobTimeout(BaseException):
+    pass
+
+
 def run_job(job: dict[str, Any]) -> dict[str, Any]:
+    """one job under a wall-clock limit: code that does not return is reported ({"timeout": s}), never waited for"""
+    import os
+    import signal
+    import time
+
+    limit = float(job.get("limit_s") or os.environ.get("VERIF_JOB_LIMIT_S", "60"))
+
+    def on_alarm(_sig: int, _frm: Any) -> None:
+        raise _JobTimeout()
+
+    old = signal.signal(signal.SIGALRM, on_alarm)
+    signal.setitimer(signal.ITIMER_REAL, limit)
+    t0 = time.time()
+    try:
+        r = _run_job(job)
+        if job.get("timed"):
+            r["seconds"] = round(time.time() - t0, 4)
+        return r
+    except _JobTimeout:
+        return {"timeout": limit, "exc": f"JobTimeout: no result within {limit:g} s"}
+    finally:
+        signal.setitimer(signal.ITIMER_REAL, 0)
+        signal.signal(signal.SIGALRM, old)
+
+
+def _run_job(job: dict[str, Any]) -> dict[str, Any]:
     op = job["op"]
     try:
         if op == "reformat_text":
